@@ -1,6 +1,7 @@
 import Rtsp.Props.C13
 open Rtsp.Life.C13
 #print axioms code_shape
+#print axioms code_shape_channels
 #print axioms balanced
 #print axioms close_returned_after_all_closed
 #print axioms no_callback_after_close
